@@ -42,7 +42,8 @@ WIDTH = {1: 1, 2: 1, 3: 2, 4: 4, 5: 8}
 
 def floors(tier):
     return {"key-by-name": 1200, "key-by-id": 1200, "list": 300, "parse-set": 300, "parse-get": 300,
-            "lookup": 1200, "limit": 6, "unknown-key": 100, "widths>=2": 200, "unknown-sibling": 3000, "after-failed-call": 100, "keyid-lookup": 30000}
+            "lookup": 1200, "limit": 6, "unknown-key": 100, "widths>=2": 200, "unknown-sibling": 3000, "after-failed-call": 100, "keyid-lookup": 30000,
+            "key-repeated-in-one-call": 200}
 
 
 def plan(tier, seed):
@@ -552,6 +553,39 @@ def run_shard(spec, ctx, acc):
         ]
 
 
+    # the same key more than once in one call (same or other addressing form, same or
+    # another value): the helpers take a list, and every entry of it is an item of the payload
+    def mkrepeats(t5):
+        its, picks, byname, a, b = t5
+        orig = list(its)
+        its = list(its)
+        for src, pos, v2 in picks:
+            kid, nm, v = orig[src]
+            its.insert(pos % (len(its) + 1), (kid, nm, v if v2 is None else v2[0]))
+        forms = [(nm if (nm and (byname + j) % 3 != 0) else kid) for j, (kid, nm, _v) in enumerate(its)]
+        keyed = [[f, v] for f, (_k, _n, v) in zip(forms, its)]
+        return [
+            {"kind": "build", "helper": "set", "a": a, "b": b % 4, "items": keyed, "repeats": True},
+            {"kind": "build", "helper": "del", "a": a, "b": b % 4, "items": [[x[0]] for x in keyed], "repeats": True},
+            {"kind": "build", "helper": "poll", "a": a % 8, "b": b, "items": [[x[0]] for x in keyed], "repeats": True},
+        ]
+
+    def with_repeats(base):
+        def again(its):
+            # (which entry is repeated, where it goes, None = same value | a second value
+            #  from the same key's value strategy)
+            def pick(j):
+                second = item(its[j][1]).map(lambda x: (x[2],)) if its[j][1] else st.just((its[j][2],))
+                return st.tuples(st.just(j), st.integers(0, 63), st.one_of(st.none(), second))
+            return st.tuples(st.just(its), st.lists(st.integers(0, len(its) - 1).flatmap(pick), min_size=1, max_size=3))
+        return base.filter(lambda its: 1 <= len(its) <= 60).flatmap(again)
+
+    rep = st.tuples(with_repeats(small), st.integers(0, 2), st.integers(0, 255), st.integers(0, 65535)).map(
+        lambda t: mkrepeats((t[0][0], t[0][1], t[1], t[2], t[3])))
+    before = acc.evaluations
+    core.hyp_search(acc, rep, check_all, seed=core.derive(ctx["seed"], PROP, "repeats", spec["part"]),
+                    max_examples=40 if tier == "quick" else 1500, known=known, rounds=2)
+    acc.classes["key-repeated-in-one-call"] += acc.evaluations - before
     strat = st.tuples(st.one_of(small, items), st.booleans(), st.integers(0, 255), st.integers(0, 65535)).map(mkcases)
     core.hyp_search(acc, strat, check_all, seed=core.derive(ctx["seed"], PROP, "lists", spec["part"]),
                     max_examples=60 if tier == "quick" else 3000, known=known, rounds=2)
